@@ -248,10 +248,13 @@ class CountingCuckooFilter(CuckooFilter):
         # either move everything around or hit the maximum number of swaps
         idx = random.choice([idx_1, idx_2])
         prv_bin = CountingCuckooBin(fingerprint, 1)
+        original = prv_bin
+        swaps = []  # (bucket, slot, evicted bin) so that a failed insertion can be undone
         for _ in range(self.max_swaps):
             # select one element to be swapped out...
             swap_elm = random.randint(0, self.bucket_size - 1)
             swap_finger = self.buckets[idx][swap_elm]
+            swaps.append((idx, swap_elm, swap_finger))
             prv_bin, self.buckets[idx][swap_elm] = swap_finger, prv_bin
 
             # now find another place to put this fingerprint
@@ -264,8 +267,11 @@ class CountingCuckooFilter(CuckooFilter):
                 self.__unique_elements += 1
                 return None
 
-        # if we got here we have an error... we might need to know what is left
-        return prv_bin
+        # if we got here we have an error... put every evicted bin back so that nothing
+        # already stored is lost, and hand back the bin that could not be inserted
+        for b_idx, slot, evicted in reversed(swaps):
+            self.buckets[b_idx][slot] = evicted
+        return original
 
     def _check_if_present(self, idx_1: int, idx_2: int, fingerprint: int) -> Union[int, None]:
         """wrapper for checking if fingerprint is already inserted"""
